@@ -65,6 +65,9 @@ pub enum Op {
   SkipUntil,
   Sample,
   SequenceEqual,
+  /// reference-only: sequence_equal as the crate implements it (zip, then compare
+  /// tuples; items beyond the shortest input are ignored) - known finding F07
+  SequenceEqualPrefix,
   SwitchOnNext,
   FlatMap(Inner),
 }
@@ -118,7 +121,7 @@ impl Op {
       Op::TakeUntil => "take_until",
       Op::SkipUntil => "skip_until",
       Op::Sample => "sample",
-      Op::SequenceEqual => "sequence_equal",
+      Op::SequenceEqual | Op::SequenceEqualPrefix => "sequence_equal",
       Op::SwitchOnNext => "switch_on_next",
       Op::FlatMap(_) => "flat_map",
     }
@@ -134,11 +137,11 @@ impl Op {
     matches!(self, Op::Window(_) | Op::GroupByParity)
   }
   pub fn has_functional_reference(&self) -> bool {
-    !matches!(self, Op::Timestamp | Op::TimeInterval | Op::SwitchOnNext)
+    !matches!(self, Op::TimeInterval | Op::SwitchOnNext)
   }
   pub fn n_extra(&self) -> std::ops::RangeInclusive<usize> {
     match self {
-      Op::Merge | Op::Concat | Op::Zip | Op::CombineLatest | Op::Amb | Op::SequenceEqual => 1..=3,
+      Op::Merge | Op::Concat | Op::Zip | Op::CombineLatest | Op::Amb | Op::SequenceEqual | Op::SequenceEqualPrefix => 1..=3,
       Op::TakeUntil | Op::SkipUntil | Op::Sample | Op::SwitchOnNext => 1..=1,
       _ => 0..=0,
     }
@@ -449,7 +452,7 @@ pub fn build_typed(n: &Node, env: &Env) -> Built {
     Op::TakeUntil => Built::V(src.take_until(extra[0].clone())),
     Op::SkipUntil => Built::V(src.skip_until(extra[0].clone())),
     Op::Sample => Built::V(src.sample(extra[0].clone())),
-    Op::SequenceEqual => Built::Bool(src.sequence_equal(&extra)),
+    Op::SequenceEqual | Op::SequenceEqualPrefix => Built::Bool(src.sequence_equal(&extra)),
     Op::SwitchOnNext => Built::V(src.switch_on_next(extra[0].clone())),
     Op::FlatMap(k) => {
       let k = *k;
@@ -466,6 +469,40 @@ pub fn build_typed(n: &Node, env: &Env) -> Built {
           Inner::Hot { base, n } => hots[base + (x.d.i().rem_euclid(n as i64) as usize)].clone(),
         }
       }))
+    }
+  }
+}
+
+
+/// The pipeline with every operator that has a *known, unrepaired* defect
+/// replaced by a reference-only operator describing what the crate actually
+/// does (DESIGN.md §8: F07 sequence_equal ignores a length mismatch, F08
+/// combine_latest is zip + map). A run that disagrees with the reference but
+/// agrees with this "as implemented" reference is that known finding and
+/// nothing else; any other deviation of the same operators is still reported.
+pub fn as_implemented(n: &Node) -> (Node, Vec<&'static str>) {
+  match n {
+    Node::Src(i) => (Node::Src(*i), vec![]),
+    Node::Op(on) => {
+      let (inp, mut names) = as_implemented(&on.input);
+      let mut extra = vec![];
+      for e in &on.extra {
+        let (x, nn) = as_implemented(e);
+        extra.push(x);
+        names.extend(nn);
+      }
+      let op = match &on.op {
+        Op::CombineLatest => {
+          names.push("combine_latest/behaves-like-zip");
+          Op::Zip
+        }
+        Op::SequenceEqual => {
+          names.push("sequence_equal/ignores-length-mismatch");
+          Op::SequenceEqualPrefix
+        }
+        o => o.clone(),
+      };
+      (Node::opx(op, inp, extra), names)
     }
   }
 }
